@@ -9,23 +9,40 @@ SIZES = dict(general=(150, 3000), tokens=(150, 3000), twofactor=(100, 2000), rem
 
 
 class C17(worldprop.WorldProp):
-    """adds the fault-enumeration flows in which a mailed token travels in the request URL (the confirm link and
-    the recover page): a backend failure there reaches the error handler, whose log line is scanned too"""
+    """adds the fault enumeration (every backend call of the target request of every flow failed in turn): a backend
+    failure reaches error returns and the error handler, whose log lines are scanned too"""
 
     def gen_fn(self, binp, prof, thorough):
+        import concurrent.futures
         import os
-        if prof != "faults-tok":
+        if prof != "faults":
             n = SIZES[prof]
             return worldprop.generate(binp, prof, n[1] if thorough else n[0], 60 if thorough else 30, vlib.seed(), "C17_" + prof)
-        path = os.path.join(vlib.CACHE, "faults_c17.jsonl")
-        rc, log = vlib.run_harness(["faults", "-seed", str(vlib.seed()), "-only", "tok-", "-out", path], binp=binp, timeout=3000)
-        hs = vlib.read_jsonl(path) if rc == 0 and os.path.exists(path) else []
-        if os.path.exists(path):
-            os.remove(path)
-        return hs, ([] if rc == 0 else [log[-1500:]])
+        # every flow of the fault enumeration (not only the ones with a token in the URL): a secret that reaches a log
+        # line or a record only on an error path - the remember cookie when UseRememberToken fails, a code when a Save
+        # fails - shows up here; quick: silent form-mode and writing API-mode handlers, thorough: all six variants
+        shards = 16
+        outs, errs = [], []
+
+        def one(k):
+            path = os.path.join(vlib.CACHE, "faults_c17_%d.jsonl" % k)
+            args = ["faults", "-seed", str(vlib.seed()), "-shard", str(k), "-shards", str(shards), "-out", path]
+            if not thorough:
+                args += ["-variants", "0,3"]
+            rc, log = vlib.run_harness(args, binp=binp, timeout=6000)
+            hs = vlib.read_jsonl(path) if rc == 0 and os.path.exists(path) else []
+            if os.path.exists(path):
+                os.remove(path)
+            return rc, log, hs
+        with concurrent.futures.ThreadPoolExecutor(max_workers=shards) as ex:
+            for rc, log, hs in ex.map(one, range(shards)):
+                if rc != 0:
+                    errs.append(log[-1500:])
+                outs.extend(hs)
+        return outs, errs
 
 
-P = C17("C17", "no_pred", [(k, v[0], v[1]) for k, v in SIZES.items()] + [("faults-tok", 0, 0)],
+P = C17("C17", "no_pred", [(k, v[0], v[1]) for k, v in SIZES.items()] + [("faults", 0, 0)],
         {151, 152, 154, 155, 156, 16, 17, 23, 24})   # stored secrets, mails, and the log lines
 
 
